@@ -773,7 +773,10 @@ pub fn check_c09(case: &PtCase, cx: &mut Ctx) {
                 if !le_tight(gout, gen.pwr_max) {
                     cx.fail("C09|bound|gen.out>rating", format!("step {k} unit {u}: {gout:e} > {:e}", gen.pwr_max));
                 }
-                prev_brake[u] = brake;
+                // the shaft power the next limit may ramp from is what the generator actually
+                // drew in this step (the engine's own `pwr_brake` is the field under test: with
+                // the engine off it must be zero like the generator's input)
+                prev_brake[u] = g(v, "gen.pwr_mech_in").min(brake);
             }
             if let UnitSpec::Bel { res, .. } = spec {
                 let dis = g(pre, "res.pwr_disch_max");
